@@ -61,6 +61,51 @@ def put_marker(root, rng):
     return f"{kind} in {'imported' if g is not root else 'main'} file"
 
 
+def contained_messages(m):
+    """Messages that occur (through arrays and aliases) as field types of m."""
+    from vlib.model import Alias, Arr, Ref
+    out = []
+
+    def walk(t):
+        if isinstance(t, Arr):
+            return walk(t.elem)
+        if isinstance(t, Ref):
+            if isinstance(t.target, Alias):
+                return walk(t.target.type)
+            if isinstance(t.target, Message) and t.target not in out:
+                out.append(t.target)
+
+    for fl in m.fields:
+        walk(fl.type)
+    return out
+
+
+def add_aligned_element_shapes(root, rng):
+    """Arrays of messages whose elements occupy whole bytes and start on byte boundaries (where an element's statements are exactly
+    that element's own encoder), next to unaligned and odd-sized ones; scalar uses of the same messages."""
+    from vlib.model import Alias, Arr, Base, Field, Ref
+    tag = "".join(rng.choice("abcdefghijklmnopqrstuvwxyz") for _ in range(4)).capitalize()
+    elem = Message("Elem" + tag)
+    for k, w in enumerate(rng.choice([[8], [3, 5], [16, 8], [12, 4, 8], [7, 9, 16, 8]])):
+        elem.add(Field("abcde"[k] + "_v", Base(rng.choice(["uint", "int"]), w), k + 1))
+    odd = Message("Odd" + tag)
+    odd.add(Field("o_v", Base("uint", rng.choice([3, 11, 13])), 1))
+    root.add(elem)
+    root.add(odd)
+    row = root.add(Alias("Row" + tag, Arr(Ref(elem), rng.choice([2, 3]))))
+    c = Message("Frame" + tag)
+    n = 0
+    for t in [Base("uint", 8), Arr(Ref(elem), rng.choice([2, 3, 6])), Ref(elem), Ref(row), Base("uint", 4), Arr(Ref(elem), 2), Arr(Ref(odd), 2),
+              Base("uint", rng.choice([1, 4])), Arr(Ref(elem), 2)]:
+        n += 1
+        c.add(Field(f"f{'abcdefghijkl'[n]}", t, n))
+    root.add(c)
+    outer = Message("Outer" + tag)
+    outer.add(Field("frames", Arr(Ref(c), 2), 1))
+    outer.add(Field("tail", Ref(elem), 2))
+    root.add(outer)
+
+
 def worker(ctx):
     res = ctx.res
     if ctx.quick:
@@ -83,6 +128,9 @@ def worker(ctx):
         cfg.n_imports = (1, 1) if case_id % 3 == 0 else (0, 0)
         root = gen.gen_schema(rng, cfg)
         mode = ["filter", "refuse-extensible", "refuse-args", "endian"][case_id % 4]
+        if mode in ("filter", "endian") and case_id % 8 < 4:
+            add_aligned_element_shapes(root, rng)
+            res.count("cases_with_aligned_element_arrays")
         marker = None
         if mode == "refuse-extensible":
             marker = put_marker(root, rng)
@@ -196,38 +244,50 @@ def worker(ctx):
                 chosen = [rng.choice(simple), "NoSuchMessage"]
             else:
                 chosen = rng.sample(simple, rng.randint(1, len(simple))) if simple else ["X"]
-            arg = (", " if rng.random() < 0.3 else ",").join(chosen)
-            want = {(k, c_type_name(m)) for m in msgs if m.name in chosen for k in ("Encode", "Decode")}
-            dcf, rc3, se3 = run("c-f", ["c", "-O", "-F", arg])
-            dgf, rc4, se4 = run("go-f", ["go", "-O", "-F", arg])
-            if rc3 or rc4:
-                res.violation("filter-refused", f"-O -F {arg} refused: {se3[-150:]} {se4[-150:]}", wit)
-                continue
-            c_f, h_f, go_f = read(dcf, f"{base}_bp.c"), read(dcf, f"{base}_bp.h"), read(dgf, f"{base}_bp.go")
-            cf, gf = c_functions(c_f), go_functions(go_f)
+            subsets = [chosen]
+            # a function's text must not depend on which OTHER functions are generated: name a container without the messages it
+            # contains, the contained one alone, and both (an encoder that calls or shares code with another message's encoder
+            # would have to change when that one is filtered out)
+            pairs = [(m, e) for m in msgs for e in contained_messages(m) if e.name != m.name and e in msgs]
+            rng.shuffle(pairs)
+            for (m, e) in pairs[:2]:
+                res.count("container_element_filter_pairs")
+                subsets += [[m.name], [e.name], [m.name, e.name]]
             hdecl_all = {(k, n) for k, n in C_DECL.findall(h_all)}
-            hdecl = {(k, n) for k, n in C_DECL.findall(h_f)}
-            res.count("filter_cases_checked")
-            res.count("filter_functions_expected", len(want))
-            w = {**wit, "filter": arg}
-            if set(cf) != want or hdecl != want:
-                res.violation("filter-function-set:c", f"-F {arg}: C defines {sorted(cf)} declares {sorted(hdecl)}, expected exactly {sorted(want)}", w)
-            if set(gf) != want:
-                res.violation("filter-function-set:go", f"-F {arg}: Go defines {sorted(gf)}, expected exactly {sorted(want)}", w)
-            for key in set(cf) & set(cf_all):
-                if cf[key] != cf_all[key]:
-                    res.violation("filter-alters-function:c", f"-F {arg}: {key} differs textually from the unfiltered -O output", w)
-            for key in set(gf) & set(gf_all):
-                if gf[key] != gf_all[key]:
-                    res.violation("filter-alters-function:go", f"-F {arg}: {key} differs textually from the unfiltered -O output", w)
             if hdecl_all != exp_all:
-                res.violation("unfiltered-declarations", "unfiltered header does not declare Encode/Decode for every message", w)
-            if strip_h(h_f) != strip_h(h_all):
-                res.violation("filter-drops-declarations:h", f"-F {arg}: the header differs beyond the Encode/Decode declarations (type, constant or size declarations lost)", w)
-            if strip_c(c_f) != strip_c(c_all):
-                res.violation("filter-changes-rest:c", f"-F {arg}: the .c file differs beyond the Encode/Decode definitions", w)
-            if strip_go(go_f) != strip_go(go_all):
-                res.violation("filter-drops-declarations:go", f"-F {arg}: the Go file differs beyond the Encode/Decode methods", w)
+                res.violation("unfiltered-declarations", "unfiltered header does not declare Encode/Decode for every message", wit)
+            for si, chosen in enumerate(subsets):
+                arg = (", " if rng.random() < 0.3 else ",").join(chosen)
+                want = {(k, c_type_name(m)) for m in msgs if m.name in chosen for k in ("Encode", "Decode")}
+                dcf, rc3, se3 = run(f"c-f{si}", ["c", "-O", "-F", arg])
+                dgf, rc4, se4 = run(f"go-f{si}", ["go", "-O", "-F", arg])
+                w = {**wit, "filter": arg}
+                if rc3 or rc4:
+                    res.violation("filter-refused", f"-O -F {arg} refused: {se3[-150:]} {se4[-150:]}", w)
+                    continue
+                c_f, h_f, go_f = read(dcf, f"{base}_bp.c"), read(dcf, f"{base}_bp.h"), read(dgf, f"{base}_bp.go")
+                cf, gf = c_functions(c_f), go_functions(go_f)
+                hdecl = {(k, n) for k, n in C_DECL.findall(h_f)}
+                res.count("filter_cases_checked")
+                res.count("filter_functions_expected", len(want))
+                if set(cf) != want or hdecl != want:
+                    res.violation("filter-function-set:c", f"-F {arg}: C defines {sorted(cf)} declares {sorted(hdecl)}, expected exactly {sorted(want)}", w)
+                if set(gf) != want:
+                    res.violation("filter-function-set:go", f"-F {arg}: Go defines {sorted(gf)}, expected exactly {sorted(want)}", w)
+                for key in set(cf) & set(cf_all):
+                    res.count("filtered_function_texts_compared")
+                    if cf[key] != cf_all[key]:
+                        res.violation("filter-alters-function:c", f"-F {arg}: {key} differs textually from the unfiltered -O output", w)
+                for key in set(gf) & set(gf_all):
+                    res.count("filtered_function_texts_compared")
+                    if gf[key] != gf_all[key]:
+                        res.violation("filter-alters-function:go", f"-F {arg}: {key} differs textually from the unfiltered -O output", w)
+                if strip_h(h_f) != strip_h(h_all):
+                    res.violation("filter-drops-declarations:h", f"-F {arg}: the header differs beyond the Encode/Decode declarations (type, constant or size declarations lost)", w)
+                if strip_c(c_f) != strip_c(c_all):
+                    res.violation("filter-changes-rest:c", f"-F {arg}: the .c file differs beyond the Encode/Decode definitions", w)
+                if strip_go(go_f) != strip_go(go_all):
+                    res.violation("filter-drops-declarations:go", f"-F {arg}: the Go file differs beyond the Encode/Decode methods", w)
         finally:
             shutil.rmtree(top, ignore_errors=True)
         if ctx.replay is not None:
@@ -238,7 +298,8 @@ if __name__ == "__main__":
     harness.main(
         "C17", "props.C17", worker,
         rule=("case = generated traditional schema (every third with an imported file) driven through the real CLI in one of four modes: filter (random subset "
-              "of message names incl. nested names, unknown names, `, ` separators: exactly the named messages get Encode/Decode definitions+declarations "
+              "of message names incl. nested names, unknown names, `, ` separators, plus for up to two (container, contained message) pairs the subsets {container}, "
+              "{contained}, {both}; half of the cases carry byte-aligned arrays of whole-byte messages: exactly the named messages get Encode/Decode definitions+declarations "
               "in C and methods in Go, each textually identical to the unfiltered -O output, and everything else in .h/.c/.go identical), refuse-extensible "
               "(exactly one extensible marker put on a message, field array or alias array in the main or an imported file: -O must be refused with a "
               "diagnostic, non-zero exit and no file, while standard mode accepts), refuse-args (py -O, -F without -O, py -O -F), endian (--endian "
@@ -246,5 +307,5 @@ if __name__ == "__main__":
               "other two, Go unaffected)"),
         assumptions=["functions are delimited textually by the generator's own layout (signature line ... closing brace at column 0)"],
         required_counters=["cli_runs", "refusals_checked", "filter_cases_checked", "filter_functions_expected", "endian_triples_compared", "endian_bodies_compared",
-                           "mode:refuse-extensible", "mode:refuse-args"],
+                           "mode:refuse-extensible", "mode:refuse-args", "container_element_filter_pairs", "filtered_function_texts_compared", "cases_with_aligned_element_arrays"],
     )
